@@ -39,6 +39,64 @@ def run(repo, chk, tier):
     dispatch(repo, chk)
     field_count_gate(repo, chk, 'C16.5')
     namespace_reader(repo, chk)
+    header_names(repo, chk)
+
+
+# -- 7 header of the raw CSV source ------------------------------------------
+def header_names(repo, chk):
+    """C16.7 - the column names of a csv-raw source are the delimited fields of the header line, one name per field (empty ones too): the
+    field-count gate compares every data row with this list, and position i of a row is reported under name i.  A name that is dropped or
+    merged shifts or rejects every row."""
+    fn = repo.modules[CU].funcs.get('parse_csv_raw')
+    if fn is None:
+        chk.unsure('C16.7', 'R15', 'outrank/core_utils.py', 'parse_csv_raw', 'the reader of the csv-raw description was not found')
+        return
+    m = fn.module
+    cs = [c for c in calls(fn) if (m.dotted(c.func) or '').endswith('DatasetInformationStorage')]
+    if len(cs) != 1:
+        chk.unsure('C16.7', 'R15', fn.site(), 'DatasetInformationStorage(..)', 'the construction of the dataset description was not found exactly once')
+        return
+    names = arg(cs[0], 1, 'column_names')
+    delim = arg(cs[0], 3, 'col_delimiter')
+    if names is None or delim is None:
+        chk.unsure('C16.7', 'R15', fn.site(cs[0]), ast.unparse(cs[0])[:100], 'column names / delimiter are not passed in their positions')
+        return
+    t = term_of(fn, names)
+    td = term_of(fn, delim)
+    filt = [x for x in walk_term(t) if isinstance(x, tuple) and x and x[0] in ('listcomp', 'genexp', 'setcomp') and any(g[1] for g in x[2])]
+    filt += [x for x in walk_term(t) if isinstance(x, tuple) and len(x) > 1 and x[0] == 'call' and x[1] in (('name', 'filter'), ('lib', 'filter'))]
+    sets = [x for x in walk_term(t) if isinstance(x, tuple) and len(x) > 1 and ((x[0] == 'call' and x[1] in (('name', 'set'), ('lib', 'set'), ('lib', 'dict.fromkeys'), ('name', 'sorted'), ('lib', 'sorted'))) or x[0] == 'setcomp')]
+    site = fn.site(cs[0])
+    if filt:
+        chk.bad('C16.7', 'R15', site, show(t)[:160], 'header fields are filtered before they become the column names: a dropped name makes the list shorter than every data row (all rows fail the field-count gate) or shifts the names of the columns behind it')
+        return
+    if sets:
+        chk.bad('C16.7', 'R15', site, show(t)[:160], 'the header fields are de-duplicated / re-ordered before they become the column names: names no longer correspond to field positions')
+        return
+    accepted = []
+    for src in ('header.strip().split(D)', "header.rstrip('\\n').split(D)", "header.rstrip('\\r\\n').split(D)", "header.rstrip().split(D)", "header.strip('\\n').split(D)", "header.strip('\\r\\n').split(D)"):
+        accepted.append(expected_term(m, src, {'D': td}))
+    # the header line itself: whatever the function reads first
+    hdr = None
+    for x in walk_term(t):
+        if isinstance(x, tuple) and len(x) > 2 and x[0] == 'call' and x[1][0] == 'attr' and x[1][2] in ('readline', '__next__'):
+            hdr = x
+        if isinstance(x, tuple) and len(x) > 2 and x[0] == 'call' and x[1] in (('name', 'next'), ('lib', 'next')):
+            hdr = x
+    if hdr is not None:
+        accepted = [_subst_name(a, 'header', hdr) for a in accepted]
+    chk.expect_term(t, accepted, 'C16.7', 'R15', site, show(t)[:160], 'column names = the header line without its line end, split on the column delimiter: one name per field',
+                    f'the column names of a csv-raw source must be header.strip().split(delimiter): one name per header field, in order; found {show(t)[:160]}')
+
+
+def _subst_name(t, name, by):
+    if t == ('name', name):
+        return by
+    if isinstance(t, tuple):
+        return tuple(_subst_name(x, name, by) for x in t)
+    if isinstance(t, list):
+        return [_subst_name(x, name, by) for x in t]
+    return t
 
 
 # -- 1 CSV ---------------------------------------------------------------
